@@ -122,11 +122,23 @@ def random_reject_op(rng, sim):
     ])
 
 
+def start_record(rng, xs, ys):
+    """Start series + how the Weaver is constructed (plain constructor with array / list / int arguments, or a factory)."""
+    r = rng.random()
+    if r < 0.7:
+        return {"x": [R(v) for v in xs], "y": [R(v) for v in ys], "container": rng.choice(["array", "array", "list", "int"])}
+    if r < 0.8 and all(v == i for i, v in enumerate(xs)):
+        return {"x": [R(v) for v in xs], "y": [R(v) for v in ys], "ctor": "none_x"}
+    return {"x": [R(v) for v in xs], "y": [R(v) for v in ys], "ctor": rng.choice(["2d", "csv", "df"])}
+
+
 def random_start(rng, mmin=4, mmax=12):
     m = rng.randint(mmin, mmax)
     t = Fraction(rng.randint(-8, 8), 2)
     g0 = Fraction(rng.randint(1, 4), 2)
     uni = rng.random() < 0.4
+    if rng.random() < 0.1:
+        t, g0, uni = Fraction(0), Fraction(1), True
     xs = []
     for _ in range(m):
         xs.append(t)
@@ -166,8 +178,7 @@ def random_history(rng, maxlen=8, with_rejects=False, continuation=True):
         if with_rejects:
             sim2 = XSim(sim.x)
             ops.append(random_reject_op(rng, sim2))
-    return {"fn": "whist", "start": {"x": [R(v) for v in xs], "y": [R(v) for v in ys], "container": rng.choice(["array", "array", "list", "int"])},
-            "ops": ops}
+    return {"fn": "whist", "start": start_record(rng, xs, ys), "ops": ops}
 
 
 # ---------------------------------------------------------------------------------------------- whole-API programs (C09)
@@ -267,8 +278,7 @@ def random_program(rng, maxops=10, maxlen=40, start=None):
         sim_apply(sim, op)
         if len(sim.x) < 4:
             break
-    return {"fn": "whist", "start": {"x": [R(v) for v in xs], "y": [R(v) for v in ys], "container": rng.choice(["array", "array", "list", "int"])},
-            "ops": ops}
+    return {"fn": "whist", "start": start_record(rng, xs, ys), "ops": ops}
 
 
 def random_restore_case(rng):
